@@ -134,6 +134,8 @@ def make_case(rng):
            "generalized": True, "rdf_star": True, "ns": False, "stream_name": ""}
     if integ == "generic" and phys != 3 and rng.random() < .2:
         cfg["entry"] = "low-level-encode"
+    elif rng.random() < .25:
+        cfg["entry"] = "catch-and-continue"
     overflow = need_t[table] - {"prefix": preset[1], "name": preset[0], "datatype": preset[2]}[table]
     return cfg, stmts, table, overflow, position
 
@@ -159,7 +161,32 @@ def low_level_bytes(cfg, stmts) -> bytes:
     return wire.enc_varint(len(frame)) + frame
 
 
+def judge_catch_and_continue(cfg, stmts):
+    """A writer that drives stream.triple / quad / graph itself, skips a statement the stream refuses and carries on:
+    what it ends up with must decode to exactly the statements that were accepted (or the stream refuses all further use)."""
+    from . import c20
+    run = c20.drive(cfg["integration"], cfg, stmts, -1, None)
+    accepted = [T.norm_stmt(x) for x in run["accepted"]]
+    refusals = sum(1 for o in run["outcomes"] if o[0] == "raised")
+    try:
+        data, res = c20.decode_frames(run["frames"])
+    except wire.WireError as e:
+        return {"clause": "output-malformed", "summary": str(e)}, "wrote"
+    if res.violation is not None:
+        return {"clause": "output-invalid", "bytes": data.hex(),
+                "summary": f"after {refusals} refused statement(s) the caller carried on; the written stream is invalid: {res.violation}"}, "wrote"
+    got = [T.norm_stmt(s) for s in res.statements]
+    if got != accepted:
+        i = next((k for k, (a, b) in enumerate(zip(got, accepted)) if a != b), min(len(got), len(accepted)))
+        return {"clause": "decodes-to-other-terms", "bytes": data.hex(),
+                "summary": f"after {refusals} refused statement(s) the caller carried on with the same stream; accepted statement {i} "
+                           f"decodes to {got[i] if i < len(got) else None} instead of {accepted[i] if i < len(accepted) else None}"}, "wrote"
+    return None, ("refused-then-continued" if refusals and len(accepted) else "refused" if refusals else "wrote-correctly")
+
+
 def judge(cfg, stmts):
+    if cfg["entry"] == "catch-and-continue":
+        return judge_catch_and_continue(cfg, stmts)
     try:
         data = low_level_bytes(cfg, stmts) if cfg["entry"] == "low-level-encode" else pj.serialize(cfg, stmts)
     except Exception as e:  # noqa: BLE001 - refusing is fine
